@@ -8,7 +8,7 @@ from fractions import Fraction
 import numpy as np
 
 from .poly import Poly, pvars, parr, frac
-from .oracle import OAtom, OCons, osub
+from .oracle import OAtom, OCons, OCustom, osub
 from .smt import HarnessError
 
 
@@ -134,6 +134,21 @@ class OracleRO:
 
     def sum(self, e, axis=None):
         return np.sum(e, axis=axis)
+
+    def rsocone(self, x, y, z):
+        """sum(x**2) <= y*z, y >= 0, z >= 0"""
+        xs = list(parr(x).reshape(-1))
+        yy, zz = parr(y).reshape(-1)[0], parr(z).reshape(-1)[0]
+
+        def z3fn(env, eps=0):
+            ss = env.z3.Sum([env.p(e) * env.p(e) for e in xs])
+            ev = env.z3.RealVal(str(eps))
+            return [ss <= env.p(yy) * env.p(zz) + ev, env.p(yy) >= -ev, env.p(zz) >= -ev]
+
+        def evalfn(asg):
+            yv, zv = yy.evalf(asg), zz.evalf(asg)
+            return max(sum(e.evalf(asg) ** 2 for e in xs) - yv * zv, -yv, -zv)
+        return OCustom(z3fn, evalfn, 'rsocone', xs + [yy, zz])
 
     # -- constraints
     def le(self, l, r):
@@ -280,6 +295,9 @@ class RealRO:
 
     def sum(self, e, axis=None):
         return e.sum(axis=axis) if axis is not None else e.sum()
+
+    def rsocone(self, x, y, z):
+        return self.rso.rsocone(x, y, z)
 
     def le(self, l, r):
         s = self.style.get('le')
